@@ -1,9 +1,1386 @@
 //! Threshold / proof-of-knowledge searches: C08 C10 C12 C14
+//!
+//! Plain helpers (no dependency on the implementation type) live outside the macro and are
+//! reached as `crate::search_thresh::name`; everything that mentions `C` is inside the macro.
+use crate::gen::Prng;
+use crate::refs::RScalar;
+use crate::search::Search;
+use serde_json::Value;
+
+/// record the outcome of a caught call: a panic is `<what>_panicked` (violation), otherwise
+/// `class` with the verdict of `pred`
+pub fn rec<T>(
+    s: &mut Search,
+    class: &str,
+    what: &str,
+    key: &str,
+    det: &Value,
+    r: Result<T, ()>,
+    pred: impl FnOnce(&T) -> bool,
+) -> Option<T> {
+    match r {
+        Err(()) => {
+            s.case(&format!("{what}_panicked"), format!("{class}|{key}"), false, det.clone());
+            None
+        }
+        Ok(v) => {
+            let ok = pred(&v);
+            s.case(class, key.to_string(), ok, det.clone());
+            Some(v)
+        }
+    }
+}
+
+/// `base` extended with the fields of `extra` (both objects)
+pub fn jmerge(base: &Value, extra: Value) -> Value {
+    let mut o = base.clone();
+    if let (Some(m), Value::Object(e)) = (o.as_object_mut(), extra) {
+        for (k, v) in e {
+            m.insert(k, v);
+        }
+    }
+    o
+}
+
+pub fn shuffle<T>(rng: &mut Prng, v: &mut [T]) {
+    for i in (1..v.len()).rev() {
+        let j = rng.below(i as u64 + 1) as usize;
+        v.swap(i, j);
+    }
+}
+
+/// every subset of {0..n-1} with at least `min` elements, each in a random order, in random sequence
+pub fn subsets(rng: &mut Prng, n: usize, min: usize) -> Vec<Vec<usize>> {
+    assert!(n <= 16);
+    let mut out = vec![];
+    for mask in 0u32..(1u32 << n) {
+        if (mask.count_ones() as usize) < min {
+            continue;
+        }
+        let mut v: Vec<usize> = (0..n).filter(|i| mask >> i & 1 == 1).collect();
+        shuffle(rng, &mut v);
+        out.push(v);
+    }
+    shuffle(rng, &mut out);
+    out
+}
+
+/// `k` distinct indices below `n`, random order
+pub fn sample_subset(rng: &mut Prng, n: usize, k: usize) -> Vec<usize> {
+    let mut all: Vec<usize> = (0..n).collect();
+    shuffle(rng, &mut all);
+    all.truncate(k.min(n));
+    all
+}
+
+/// a sparse choice of subsets for a large (t, n): sizes around the threshold, the full set, size 2
+pub fn sampled_subsets(rng: &mut Prng, t: usize, n: usize, extra: usize) -> Vec<Vec<usize>> {
+    let mut sizes = vec![t, n, 2];
+    if t + 1 <= n {
+        sizes.push(t + 1);
+    }
+    if t > 2 {
+        sizes.push(t - 1);
+    }
+    for _ in 0..extra {
+        sizes.push(t + rng.below((n - t + 1) as u64) as usize);
+        if t > 2 {
+            sizes.push(2 + rng.below((t - 2) as u64) as usize);
+        }
+    }
+    sizes.sort();
+    sizes.dedup();
+    let mut out: Vec<Vec<usize>> = sizes.into_iter().filter(|&k| k >= 2 && k <= n).map(|k| sample_subset(rng, n, k)).collect();
+    // one subset in ascending order as well (the order the dealer hands them out)
+    let mut asc = sample_subset(rng, n, t);
+    asc.sort();
+    out.push(asc);
+    out
+}
+
+/// (t, n, exhaustive) grid of C08: exhaustive for small n, sparse samples up to (255,255)
+pub fn grid(thorough: bool, nmax_quick: usize, nmax_thorough: usize, big_quick: &[(usize, usize)], big_thorough: &[(usize, usize)]) -> Vec<(usize, usize, bool)> {
+    let nmax = if thorough { nmax_thorough } else { nmax_quick };
+    let mut g = vec![];
+    for n in 2..=nmax {
+        for t in 2..=n {
+            g.push((t, n, true));
+        }
+    }
+    for &(t, n) in big_quick {
+        g.push((t, n, false));
+    }
+    if thorough {
+        for &(t, n) in big_thorough {
+            g.push((t, n, false));
+        }
+    }
+    g
+}
+
+/// k * P for a compressed point of the public-key group, computed with the reference backend
+pub fn ref_pk_mul(sig_in_g1: bool, point: &[u8], k: &RScalar) -> Option<Vec<u8>> {
+    use bls12_381_plus as r;
+    use bls12_381_plus::group::Curve;
+    if sig_in_g1 {
+        let p = crate::refs::dec_g2(point)?;
+        Some((r::G2Projective::from(p) * k).to_affine().to_compressed().to_vec())
+    } else {
+        let p = crate::refs::dec_g1(point)?;
+        Some((r::G1Projective::from(p) * k).to_affine().to_compressed().to_vec())
+    }
+}
+
+pub fn seed32(rng: &mut Prng) -> [u8; 32] {
+    let mut a = [0u8; 32];
+    a.copy_from_slice(&rng.bytes(32));
+    a
+}
+
+pub fn chacha(seed: &[u8; 32]) -> rand_chacha::ChaCha20Rng {
+    use rand_core::SeedableRng;
+    rand_chacha::ChaCha20Rng::from_seed(*seed)
+}
+
+pub fn msg_field(m: &[u8]) -> String {
+    if m.len() <= 96 {
+        hex::encode(m)
+    } else {
+        format!("sha256:{}", hex::encode(crate::refs::sha256(m)))
+    }
+}
+
 macro_rules! search_thresh {
     () => {
-        pub fn c08(_s: &mut Search, _rng: &mut Prng, _thorough: bool) {}
-        pub fn c10(_s: &mut Search, _rng: &mut Prng, _thorough: bool) {}
-        pub fn c12(_s: &mut Search, _rng: &mut Prng, _thorough: bool) {}
-        pub fn c14(_s: &mut Search, _rng: &mut Prng, _thorough: bool) {}
+        search_thresh_common!();
+        search_thresh_c08!();
+        search_thresh_c10!();
+        search_thresh_c12!();
+        search_thresh_c14!();
+    };
+}
+
+macro_rules! search_thresh_common {
+    () => {
+        pub type ThreshPk = <C as Pairing>::PublicKey;
+        pub type ThreshSig = <C as Pairing>::Signature;
+
+        pub fn thresh_imp() -> &'static str {
+            if G1 { "g1" } else { "g2" }
+        }
+
+        pub fn thresh_sigshare_scheme(x: &SignatureShare<C>) -> u8 {
+            match x {
+                SignatureShare::Basic(_) => 0,
+                SignatureShare::MessageAugmentation(_) => 1,
+                SignatureShare::ProofOfPossession(_) => 2,
+            }
+        }
+
+        pub fn thresh_sig_scheme(x: &Signature<C>) -> u8 {
+            match x {
+                Signature::Basic(_) => 0,
+                Signature::MessageAugmentation(_) => 1,
+                Signature::ProofOfPossession(_) => 2,
+            }
+        }
+
+        /// the same partial signature with another identifier
+        pub fn thresh_sigshare_with_id(x: &SignatureShare<C>, id: u8) -> SignatureShare<C> {
+            let mut inner = *x.as_raw_value();
+            *blsful::vsss_rs::Share::identifier_mut(&mut inner) = id;
+            match x {
+                SignatureShare::Basic(_) => SignatureShare::Basic(inner),
+                SignatureShare::MessageAugmentation(_) => SignatureShare::MessageAugmentation(inner),
+                SignatureShare::ProofOfPossession(_) => SignatureShare::ProofOfPossession(inner),
+            }
+        }
+
+        pub fn thresh_skshare_with_id(x: &SecretKeyShare<C>, id: u8) -> SecretKeyShare<C> {
+            let mut y = x.clone();
+            *blsful::vsss_rs::Share::identifier_mut(&mut y.0) = id;
+            y
+        }
+
+        pub fn thresh_pkshare_with_id(x: &PublicKeyShare<C>, id: u8) -> PublicKeyShare<C> {
+            let mut y = *x;
+            *blsful::vsss_rs::Share::identifier_mut(&mut y.0) = id;
+            y
+        }
+
+        pub fn thresh_share_id(x: &SecretKeyShare<C>) -> u8 {
+            blsful::vsss_rs::Share::identifier(&x.0)
+        }
+
+        pub fn thresh_opt(o: subtle::CtOption<Vec<u8>>) -> Option<Vec<u8>> {
+            o.into()
+        }
+
+        pub fn thresh_scalar(k: &RScalar) -> BScalar {
+            bsc(&sc_be(k))
+        }
+    };
+}
+
+macro_rules! search_thresh_c08 {
+    () => {
+        /// C08: threshold shares recombine to exactly the whole-key results
+        pub fn c08(s: &mut Search, rng: &mut Prng, thorough: bool) {
+            let edges = gen::edge_scalars();
+            let g = crate::search_thresh::grid(
+                thorough,
+                5,
+                7,
+                &[(2, 255), (128, 255), (255, 255), (3, 9), (9, 9)],
+                &[(2, 8), (8, 8), (5, 16), (16, 16), (17, 32), (64, 64), (2, 128), (127, 128), (254, 255), (100, 200), (2, 254), (33, 100)],
+            );
+            for (gi, &(t, n, exhaustive)) in g.iter().enumerate() {
+                let k = if gi % 2 == 0 { edges[(gi / 2) % edges.len()] } else { rng.scalar() };
+                thresh_c08_one(s, rng, thorough, t, n, exhaustive, &k);
+            }
+            thresh_c08_params(s, rng, thorough);
+        }
+
+        fn thresh_c08_one(s: &mut Search, rng: &mut Prng, thorough: bool, t: usize, n: usize, exhaustive: bool, k: &RScalar) {
+            use crate::search_thresh::{jmerge, rec};
+            let imp = thresh_imp();
+            let sk = sk_of(k);
+            let pk = sk.public_key();
+            let seed = crate::search_thresh::seed32(rng);
+            let len = *rng.pick(&[0usize, 1, 32, 65, 200]);
+            let msg = gen::message(rng, len);
+            let base = json!({"impl": imp, "t": t, "n": n, "sk": gen::hs(k), "split_seed": gen::hx(&seed),
+                              "split_rng": "ChaCha20Rng::from_seed(split_seed)", "msg": gen::hx(&msg)});
+            let bkey = format!("{imp}|{t}|{n}|{}|{}", gen::hs(k), gen::hx(&seed[..8]));
+
+            let r = catch(|| sk.split_with_rng(t, n, crate::search_thresh::chacha(&seed)));
+            let shares = match rec(s, "split_succeeds", "split", &bkey, &base, r, |r| matches!(r, Ok(v) if v.len() == n)) {
+                Some(Ok(v)) if v.len() == n => v,
+                _ => return,
+            };
+            let ids: Vec<u8> = shares.iter().map(thresh_share_id).collect();
+
+            // public key shares
+            let mut pks: Vec<PublicKeyShare<C>> = Vec::with_capacity(n);
+            for (i, sh) in shares.iter().enumerate() {
+                let r = catch(|| sh.public_key());
+                let det = jmerge(&base, json!({"participant": ids[i]}));
+                match rec(s, "public_key_share_succeeds", "public_key_share", &format!("{bkey}|{i}"), &det, r, |r| r.is_ok()) {
+                    Some(Ok(p)) => pks.push(p),
+                    _ => return,
+                }
+            }
+
+            // partial signatures (Basic, ProofOfPossession) and the whole-key signatures
+            let schemes = [0u8, 2u8];
+            let mut sigs: Vec<Vec<SignatureShare<C>>> = vec![];
+            let mut whole: Vec<Signature<C>> = vec![];
+            for &sc in &schemes {
+                let w = match catch(|| sk.sign(scheme_of(sc), &msg)) {
+                    Ok(Ok(w)) => w,
+                    _ => return, // C01's business
+                };
+                whole.push(w);
+                let mut v = Vec::with_capacity(n);
+                for (i, sh) in shares.iter().enumerate() {
+                    let r = catch(|| sh.sign(scheme_of(sc), &msg));
+                    let det = jmerge(&base, json!({"participant": ids[i], "scheme": gen::SCH[sc as usize]}));
+                    match rec(s, "partial_sign_succeeds", "partial_sign", &format!("{bkey}|{i}|{sc}"), &det, r,
+                              |r| matches!(r, Ok(x) if thresh_sigshare_scheme(x) == sc)) {
+                        Some(Ok(x)) if thresh_sigshare_scheme(&x) == sc => v.push(x),
+                        _ => return,
+                    }
+                }
+                sigs.push(v);
+            }
+            // message augmentation is refused for shares
+            let aug_idx: Vec<usize> = if exhaustive { (0..n).collect() } else { crate::search_thresh::sample_subset(rng, n, 3) };
+            for i in aug_idx {
+                let sh = &shares[i];
+                let r = catch(|| sh.sign(SignatureSchemes::MessageAugmentation, &msg));
+                let det = jmerge(&base, json!({"participant": ids[i], "scheme": "aug"}));
+                rec(s, "partial_sign_aug_is_error", "partial_sign", &format!("{bkey}|{i}"), &det, r, |r| r.is_err());
+            }
+
+            // each partial signature verifies against its own key share and no other
+            let mut pairs: Vec<(usize, usize)> = vec![];
+            if exhaustive {
+                for i in 0..n {
+                    for j in 0..n {
+                        pairs.push((i, j));
+                    }
+                }
+            } else {
+                for _ in 0..(if thorough { 10 } else { 5 }) {
+                    let i = rng.below(n as u64) as usize;
+                    let j = (i + 1 + rng.below(n as u64 - 1) as usize) % n;
+                    pairs.push((i, i));
+                    pairs.push((i, j));
+                }
+                pairs.push((0, n - 1));
+                pairs.push((n - 1, n - 1));
+                pairs.sort();
+                pairs.dedup();
+            }
+            for (si, &sc) in schemes.iter().enumerate() {
+                for (pi, &(i, j)) in pairs.iter().enumerate() {
+                    let (sg, pj) = (&sigs[si][i], &pks[j]);
+                    let via_share = (pi + si) % 2 == 0;
+                    let r = catch(|| if via_share { sg.verify(pj, &msg) } else { pj.verify(sg, &msg) });
+                    let det = jmerge(&base, json!({"scheme": gen::SCH[sc as usize], "signer": ids[i], "key_share_of": ids[j],
+                                                   "api": if via_share { "SignatureShare::verify" } else { "PublicKeyShare::verify" }}));
+                    let key = format!("{bkey}|{sc}|{i}|{j}");
+                    if i == j {
+                        rec(s, "partial_sig_verifies_own_key_share", "partial_verify", &key, &det, r, |r| r.is_ok());
+                    } else {
+                        rec(s, "partial_sig_rejected_by_other_key_share", "partial_verify", &key, &det, r, |r| r.is_err());
+                    }
+                }
+            }
+
+            // subsets
+            let mut subs = if exhaustive {
+                crate::search_thresh::subsets(rng, n, 2)
+            } else {
+                crate::search_thresh::sampled_subsets(rng, t, n, if thorough { 3 } else { 1 })
+            };
+            if exhaustive && thorough {
+                // a second, independent ordering of every subset
+                subs.extend(crate::search_thresh::subsets(rng, n, 2));
+            }
+            let pk_bytes = Vec::<u8>::from(&pk);
+            for sub in &subs {
+                let sids: Vec<u8> = sub.iter().map(|&i| ids[i]).collect();
+                let enough = sub.len() >= t;
+                let det = jmerge(&base, json!({"subset_ids_in_order": sids, "subset_size": sub.len(), "at_least_t": enough}));
+                let key = format!("{bkey}|{sids:?}");
+                let ss: Vec<SecretKeyShare<C>> = sub.iter().map(|&i| shares[i].clone()).collect();
+                let ps: Vec<PublicKeyShare<C>> = sub.iter().map(|&i| pks[i]).collect();
+
+                let r = catch(|| SecretKey::<C>::combine(&ss));
+                if enough {
+                    rec(s, "combine_recovers_key", "combine", &key, &det, r, |r| matches!(r, Ok(x) if *x == sk));
+                } else {
+                    rec(s, "below_threshold_key_differs", "combine", &key, &det, r, |r| !matches!(r, Ok(x) if *x == sk));
+                }
+                let r = catch(|| PublicKey::<C>::from_shares(&ps));
+                if enough {
+                    rec(s, "public_key_from_shares_matches", "public_key_from_shares", &key, &det, r,
+                        |r| matches!(r, Ok(x) if *x == pk && Vec::<u8>::from(x) == pk_bytes));
+                } else {
+                    rec(s, "below_threshold_public_key_differs", "public_key_from_shares", &key, &det, r, |r| !matches!(r, Ok(x) if *x == pk));
+                }
+                for (si, &sc) in schemes.iter().enumerate() {
+                    let sg: Vec<SignatureShare<C>> = sub.iter().map(|&i| sigs[si][i]).collect();
+                    let w = whole[si];
+                    let wb = Vec::<u8>::from(&w);
+                    let det = jmerge(&det, json!({"scheme": gen::SCH[sc as usize], "whole_key_signature": gen::hx(&wb)}));
+                    let key = format!("{key}|{sc}");
+                    let r = catch(|| Signature::<C>::from_shares(&sg));
+                    if enough {
+                        rec(s, "signature_from_shares_bytes_equal", "signature_from_shares", &key, &det, r, |r| {
+                            matches!(r, Ok(x) if Vec::<u8>::from(x) == wb && thresh_sig_scheme(x) == sc && x.same_scheme(&w)
+                                && x.as_raw_value().to_bytes().as_ref() == w.as_raw_value().to_bytes().as_ref())
+                        });
+                    } else {
+                        rec(s, "below_threshold_signature_differs", "signature_from_shares", &key, &det, r,
+                            |r| !matches!(r, Ok(x) if x.as_raw_value() == w.as_raw_value()));
+                    }
+                }
+            }
+
+            thresh_c08_errors(s, rng, &bkey, &base, &shares, &pks, &sigs);
+
+            // the entropy-driven `split` gives shares with the same behaviour
+            if exhaustive || t == 255 {
+                let r = catch(|| {
+                    let sh = sk.split(t, n)?;
+                    let mut idx: Vec<usize> = (0..n).collect();
+                    idx.reverse();
+                    idx.truncate(t);
+                    let sub: Vec<SecretKeyShare<C>> = idx.iter().map(|&i| sh[i].clone()).collect();
+                    let ok_len = sh.len() == n;
+                    Ok::<bool, BlsError>(ok_len && SecretKey::<C>::combine(&sub)? == sk)
+                });
+                rec(s, "split_with_entropy_recombines", "split", &bkey, &base, r, |r| matches!(r, Ok(true)));
+            }
+        }
+
+        /// empty, single, duplicated, zero-identifier and mixed-scheme sets are errors
+        fn thresh_c08_errors(
+            s: &mut Search,
+            rng: &mut Prng,
+            bkey: &str,
+            base: &serde_json::Value,
+            shares: &[SecretKeyShare<C>],
+            pks: &[PublicKeyShare<C>],
+            sigs: &[Vec<SignatureShare<C>>],
+        ) {
+            use crate::search_thresh::{jmerge, rec};
+            let n = shares.len();
+            let a = rng.below(n as u64) as usize;
+            let b = (a + 1 + rng.below(n as u64 - 1) as usize) % n;
+            let ida = thresh_share_id(&shares[a]);
+            let idb = thresh_share_id(&shares[b]);
+
+            // index lists describing the malformed sets; usize::MAX-x are markers handled below
+            // kind, list of (index, identifier override)
+            let all: Vec<(usize, Option<u8>)> = (0..n).map(|i| (i, None)).collect();
+            let mut sets: Vec<(&str, &str, Vec<(usize, Option<u8>)>)> = vec![
+                ("empty_set_is_error", "empty", vec![]),
+                ("single_share_is_error", "first", vec![(0, None)]),
+                ("single_share_is_error", "random", vec![(a, None)]),
+                ("duplicate_identifier_is_error", "same_share_twice", vec![(a, None), (a, None)]),
+                ("duplicate_identifier_is_error", "a_b_a", vec![(a, None), (b, None), (a, None)]),
+                ("duplicate_identifier_is_error", "other_value_same_identifier", vec![(a, None), (b, Some(ida))]),
+                ("zero_identifier_is_error", "zeroed_a_with_b", vec![(a, Some(0)), (b, None)]),
+                ("zero_identifier_is_error", "b_with_zeroed_a", vec![(b, None), (a, Some(0))]),
+            ];
+            // all shares, one of them duplicated at the end / one of them with identifier 0
+            let mut v = all.clone();
+            v.push((a, None));
+            sets.push(("duplicate_identifier_is_error", "all_plus_repeat", v));
+            let mut v = all.clone();
+            v[b] = (b, Some(0));
+            sets.push(("zero_identifier_is_error", "all_one_zeroed", v));
+            let mut v = all.clone();
+            v[b] = (b, Some(ida));
+            sets.push(("duplicate_identifier_is_error", "all_one_relabelled", v));
+
+            for (class, which, set) in &sets {
+                let desc: Vec<String> = set.iter().map(|(i, o)| match o {
+                    None => format!("share#{}", thresh_share_id(&shares[*i])),
+                    Some(id) => format!("share#{} with identifier {}", thresh_share_id(&shares[*i]), id),
+                }).collect();
+                let ss: Vec<SecretKeyShare<C>> = set.iter().map(|(i, o)| match o { None => shares[*i].clone(), Some(id) => thresh_skshare_with_id(&shares[*i], *id) }).collect();
+                let ps: Vec<PublicKeyShare<C>> = set.iter().map(|(i, o)| match o { None => pks[*i], Some(id) => thresh_pkshare_with_id(&pks[*i], *id) }).collect();
+                let det = jmerge(base, json!({"malformed_set": which, "set": desc, "api": "SecretKey::combine"}));
+                let r = catch(|| SecretKey::<C>::combine(&ss));
+                rec(s, class, "combine", &format!("{bkey}|{which}|sk"), &det, r, |r| r.is_err());
+                let det = jmerge(base, json!({"malformed_set": which, "set": desc, "api": "PublicKey::from_shares"}));
+                let r = catch(|| PublicKey::<C>::from_shares(&ps));
+                rec(s, class, "public_key_from_shares", &format!("{bkey}|{which}|pk"), &det, r, |r| r.is_err());
+                for (si, sc) in [0u8, 2u8].iter().enumerate() {
+                    let sg: Vec<SignatureShare<C>> = set.iter().map(|(i, o)| match o { None => sigs[si][*i], Some(id) => thresh_sigshare_with_id(&sigs[si][*i], *id) }).collect();
+                    let det = jmerge(base, json!({"malformed_set": which, "set": desc, "api": "Signature::from_shares", "scheme": gen::SCH[*sc as usize]}));
+                    let r = catch(|| Signature::<C>::from_shares(&sg));
+                    rec(s, class, "signature_from_shares", &format!("{bkey}|{which}|sig{sc}"), &det, r, |r| r.is_err());
+                }
+            }
+
+            // mixed-scheme signature shares (all identifiers distinct, enough shares)
+            let mixes: Vec<(&str, Vec<(usize, usize)>)> = vec![
+                ("basic_then_pop", vec![(0, a), (1, b)]),
+                ("pop_then_basic", vec![(1, a), (0, b)]),
+                ("all_basic_last_pop", (0..n).map(|i| (if i == n - 1 { 1 } else { 0 }, i)).collect()),
+                ("all_pop_first_basic", (0..n).map(|i| (if i == 0 { 0 } else { 1 }, i)).collect()),
+                ("all_basic_one_pop_inside", (0..n).map(|i| (if i == b { 1 } else { 0 }, i)).collect()),
+            ];
+            for (which, set) in &mixes {
+                let sg: Vec<SignatureShare<C>> = set.iter().map(|&(si, i)| sigs[si][i]).collect();
+                let desc: Vec<String> = set.iter().map(|&(si, i)| format!("{}#{}", ["basic", "pop"][si], thresh_share_id(&shares[i]))).collect();
+                let det = jmerge(base, json!({"malformed_set": which, "set": desc, "api": "Signature::from_shares"}));
+                let r = catch(|| Signature::<C>::from_shares(&sg));
+                rec(s, "mixed_scheme_is_error", "signature_from_shares", &format!("{bkey}|{which}"), &det, r, |r| r.is_err());
+            }
+            // a share relabelled as message augmentation among Basic shares
+            if n >= 2 {
+                let mut sg: Vec<SignatureShare<C>> = (0..n).map(|i| sigs[0][i]).collect();
+                sg[b] = SignatureShare::<C>::MessageAugmentation(*sigs[0][b].as_raw_value());
+                let det = jmerge(base, json!({"malformed_set": "all_basic_one_relabelled_aug", "relabelled": idb, "api": "Signature::from_shares"}));
+                let r = catch(|| Signature::<C>::from_shares(&sg));
+                rec(s, "mixed_scheme_is_error", "signature_from_shares", &format!("{bkey}|relabel_aug"), &det, r, |r| r.is_err());
+            }
+        }
+
+        /// parameters outside 2 <= t <= n <= 255
+        fn thresh_c08_params(s: &mut Search, rng: &mut Prng, thorough: bool) {
+            use crate::search_thresh::rec;
+            let imp = thresh_imp();
+            let mut bad: Vec<(usize, usize)> = vec![
+                (0, 0), (0, 1), (1, 1), (0, 5), (1, 5), (1, 2), (1, 255), (1, 256), (0, 255),
+                (3, 2), (2, 1), (2, 0), (6, 5), (255, 254), (256, 255), (300, 255), (usize::MAX, 2), (usize::MAX, 255),
+                (2, 256), (3, 256), (255, 256), (256, 256), (2, 257), (2, 300), (256, 300), (2, 1000), (2, 65536),
+                (2, usize::MAX), (usize::MAX, usize::MAX),
+            ];
+            if thorough {
+                for _ in 0..20 {
+                    let n = 256 + rng.below(2000) as usize;
+                    let t = 2 + rng.below(n as u64 - 1) as usize;
+                    bad.push((t, n));
+                    let n2 = rng.below(256) as usize;
+                    bad.push((n2 + 1 + rng.below(50) as usize, n2));
+                }
+            }
+            let keys = [RScalar::ONE, rng.scalar()];
+            for (ki, k) in keys.iter().enumerate() {
+                let sk = sk_of(k);
+                for &(t, n) in &bad {
+                    let seed = crate::search_thresh::seed32(rng);
+                    let t_s = if t == usize::MAX { "usize::MAX".to_string() } else { t.to_string() };
+                    let n_s = if n == usize::MAX { "usize::MAX".to_string() } else { n.to_string() };
+                    let det = json!({"impl": imp, "t": t_s, "n": n_s, "sk": gen::hs(k), "split_seed": gen::hx(&seed), "api": "split_with_rng"});
+                    let r = catch(|| sk.split_with_rng(t, n, crate::search_thresh::chacha(&seed)).map(|v| v.len()));
+                    rec(s, "split_out_of_range_is_error", "split", &format!("{imp}|{ki}|{t}|{n}|rng"), &det, r, |r| r.is_err());
+                    if ki == 0 {
+                        let det = json!({"impl": imp, "t": t_s, "n": n_s, "sk": gen::hs(k), "api": "split"});
+                        let r = catch(|| sk.split(t, n).map(|v| v.len()));
+                        rec(s, "split_out_of_range_is_error", "split", &format!("{imp}|{ki}|{t}|{n}|entropy"), &det, r, |r| r.is_err());
+                    }
+                }
+            }
+        }
+    };
+}
+
+macro_rules! search_thresh_c10 {
+    () => {
+        pub struct ThreshTsCase {
+            pub p: ProofOfKnowledgeTimestamp<C>,
+            pub pk: PublicKey<C>,
+            pub msg: Vec<u8>,
+            pub det: serde_json::Value,
+            pub key: String,
+            pub base_ok: bool,
+        }
+
+        pub fn thresh_pok_parts(p: &ProofOfKnowledge<C>) -> (u8, ThreshSig, ThreshSig) {
+            match p {
+                ProofOfKnowledge::Basic { u, v } => (0, *u, *v),
+                ProofOfKnowledge::MessageAugmentation { u, v } => (1, *u, *v),
+                ProofOfKnowledge::ProofOfPossession { u, v } => (2, *u, *v),
+            }
+        }
+
+        pub fn thresh_pok_make(sc: u8, u: ThreshSig, v: ThreshSig) -> ProofOfKnowledge<C> {
+            match sc {
+                0 => ProofOfKnowledge::Basic { u, v },
+                1 => ProofOfKnowledge::MessageAugmentation { u, v },
+                _ => ProofOfKnowledge::ProofOfPossession { u, v },
+            }
+        }
+
+        pub fn thresh_commitment_scheme(c: &ProofCommitment<C>) -> u8 {
+            match c {
+                ProofCommitment::Basic(_) => 0,
+                ProofCommitment::MessageAugmentation(_) => 1,
+                ProofCommitment::ProofOfPossession(_) => 2,
+            }
+        }
+
+        /// other messages derived from `m`
+        pub fn thresh_other_msgs(rng: &mut Prng, m: &[u8]) -> Vec<(&'static str, Vec<u8>)> {
+            let mut out: Vec<(&'static str, Vec<u8>)> = vec![];
+            let mut a = m.to_vec();
+            a.push(0);
+            out.push(("appended_zero_byte", a));
+            if !m.is_empty() {
+                let mut b = m.to_vec();
+                let bit = rng.below(8 * m.len() as u64) as usize;
+                b[bit / 8] ^= 1 << (bit % 8);
+                out.push(("bit_flipped", b));
+                out.push(("last_byte_dropped", m[..m.len() - 1].to_vec()));
+                if m.len() > 1 {
+                    out.push(("empty", vec![]));
+                }
+            } else {
+                out.push(("random_32_bytes", rng.bytes(32)));
+            }
+            out
+        }
+
+        /// C10: signature proofs of knowledge are complete, challenge-bound and time-bound
+        pub fn c10(s: &mut Search, rng: &mut Prng, thorough: bool) {
+            let edges = gen::edge_scalars();
+            let mut keys: Vec<RScalar> = vec![edges[0], edges[2], edges[6]];
+            if thorough {
+                keys.extend_from_slice(&[edges[1], edges[3], edges[4], edges[5]]);
+            }
+            for _ in 0..(if thorough { 8 } else { 1 }) {
+                keys.push(rng.scalar());
+            }
+            let lens: &[usize] = if thorough { &[0, 1, 31, 32, 33, 64, 127, 300, 4096] } else { &[0, 1, 32, 100] };
+            let mut batch: Vec<ThreshTsCase> = vec![];
+            let mut run = 0usize;
+            for (ki, k) in keys.iter().enumerate() {
+                let other = rng.scalar();
+                for sc in 0..3u8 {
+                    let nlen = if thorough { 3 } else { 1 };
+                    for li in 0..nlen {
+                        let len = lens[(run + li) % lens.len()];
+                        let msg = gen::message(rng, len);
+                        thresh_c10_run(s, rng, thorough, run, k, &other, sc, &msg, &mut batch);
+                        run += 1;
+                    }
+                }
+            }
+            thresh_c10_finalize_mismatch(s, rng, &keys[keys.len() - 1]);
+            thresh_c10_after_sleep(s, &batch, thorough);
+        }
+
+        fn thresh_c10_run(s: &mut Search, rng: &mut Prng, thorough: bool, run: usize, k: &RScalar, other: &RScalar, sc: u8,
+                          msg: &[u8], batch: &mut Vec<ThreshTsCase>) {
+            use crate::search_thresh::{jmerge, msg_field, rec};
+            let imp = thresh_imp();
+            let sk = sk_of(k);
+            let pk = sk.public_key();
+            let pk_other = sk_of(other).public_key();
+            let sig = match catch(|| sk.sign(scheme_of(sc), msg)) {
+                Ok(Ok(x)) => x,
+                _ => return,
+            };
+            let base = json!({"impl": imp, "sk": gen::hs(k), "scheme": gen::SCH[sc as usize], "msg": msg_field(msg), "msg_len": msg.len()});
+            let bkey = format!("{imp}|{}|{sc}|{}", gen::hs(k), gen::hx(&sha256(msg)));
+
+            // ---- interactive protocol, every kind of challenge
+            let hdata = rng.bytes(1 + (run % 40));
+            let chals: Vec<(&str, ProofCommitmentChallenge<C>, serde_json::Value)> = vec![
+                ("new", ProofCommitmentChallenge::<C>::new(), json!(null)),
+                ("from_hash", ProofCommitmentChallenge::<C>::from_hash(&hdata), json!(gen::hx(&hdata))),
+                ("one", ProofCommitmentChallenge::<C>(thresh_scalar(&RScalar::ONE)), json!(null)),
+                ("r_minus_1", ProofCommitmentChallenge::<C>(thresh_scalar(&(-RScalar::ONE))), json!(null)),
+                ("random_scalar", ProofCommitmentChallenge::<C>(thresh_scalar(&rng.scalar())), json!(null)),
+                ("via_BlsSignature_new_proof_challenge", BlsSignature::<C>::new_proof_challenge(), json!(null)),
+            ];
+            let perturb_kind = run % chals.len();
+            // for message augmentation: the same protocol run over (public key bytes || message),
+            // which is what the signature is algebraically a signature of
+            let mut pm = Vec::<u8>::from(&pk);
+            pm.extend_from_slice(msg);
+            let mut first_failed = false;
+            for (ci, (cname, y, hd)) in chals.iter().enumerate() {
+                let y = *y;
+                let det0 = jmerge(&base, json!({"challenge_kind": cname, "challenge": gen::hx(&bsc_be(&y.0)), "challenge_hash_input": hd}));
+                let key = format!("{bkey}|{cname}|{}", gen::hx(&bsc_be(&y.0)));
+                let r = catch(|| ProofCommitment::<C>::generate(msg, sig));
+                let Some(Ok((comm, x))) = rec(s, "pok_generate_succeeds", "pok_generate", &key, &det0, r,
+                                               |r| matches!(r, Ok((c, _)) if thresh_commitment_scheme(c) == sc)) else { continue };
+                let r = catch(|| comm.finalize(x, y, sig));
+                let det1 = jmerge(&det0, json!({"commitment_secret_x": gen::hx(&bsc_be(&x.0))}));
+                let Some(Ok(proof)) = rec(s, "pok_finalize_succeeds", "pok_finalize", &key, &det1, r,
+                                          |r| matches!(r, Ok(p) if thresh_pok_parts(p).0 == sc)) else { continue };
+                let (_, u, v) = thresh_pok_parts(&proof);
+                let mut det = jmerge(&det1, json!({"u": hexpt(&u), "v": hexpt(&v)}));
+                // the augmented-message variant (diagnostic + second base for the rejection checks)
+                let mut aug_proof: Option<ProofOfKnowledge<C>> = None;
+                if sc == 1 {
+                    let r = catch(|| {
+                        let (c2, x2) = ProofCommitment::<C>::generate(&pm, sig)?;
+                        let p2 = c2.finalize(x2, y, sig)?;
+                        let ok = p2.verify(pk, &pm, y).is_ok();
+                        Ok::<_, BlsError>((p2, ok))
+                    });
+                    if let Ok(Ok((p2, ok))) = r {
+                        det = jmerge(&det, json!({"same_protocol_over_pk_bytes_then_msg_verifies": ok}));
+                        if ok {
+                            aug_proof = Some(p2);
+                        }
+                    }
+                }
+                let r = catch(|| proof.verify(pk, msg, y));
+                let complete = if first_failed {
+                    // the same violation was already recorded for this (key, scheme, message)
+                    matches!(r, Ok(Ok(())))
+                } else {
+                    let det = jmerge(&det, json!({"got": match &r { Ok(x) => fmt_unit(x), Err(()) => "panic".into() }}));
+                    matches!(rec(s, "pok_complete", "pok_verify", &key, &det, r, |r| r.is_ok()), Some(Ok(())))
+                };
+                if !complete {
+                    first_failed = true;
+                }
+                if ci == perturb_kind || thorough {
+                    thresh_c10_perturb(s, rng, &key, &det, &proof, &pk, &pk_other, msg, &y, "as_generated");
+                    if let Some(p2) = aug_proof {
+                        let det = jmerge(&det, json!({"protocol_message": "pk_bytes||msg", "u": hexpt(&thresh_pok_parts(&p2).1), "v": hexpt(&thresh_pok_parts(&p2).2)}));
+                        thresh_c10_perturb(s, rng, &format!("{key}|pm"), &det, &p2, &pk, &pk_other, &pm, &y, "pk_prefixed");
+                    }
+                }
+            }
+
+            // ---- timestamp variant
+            let r = catch(|| ProofOfKnowledgeTimestamp::<C>::generate(msg, sig));
+            let Some(Ok(p)) = rec(s, "ts_generate_succeeds", "ts_generate", &bkey, &base, r,
+                                  |r| matches!(r, Ok(p) if thresh_pok_parts(&p.proof).0 == sc)) else { return };
+            let (_, u, v) = thresh_pok_parts(&p.proof);
+            let t = p.timestamp;
+            let det = jmerge(&base, json!({"u": hexpt(&u), "v": hexpt(&v), "timestamp": t}));
+            let r = catch(|| p.verify(pk, msg, None));
+            let detg = jmerge(&det, json!({"timeout_ms": null, "got": match &r { Ok(x) => fmt_unit(x), Err(()) => "panic".into() }}));
+            let base_ok = matches!(rec(s, "ts_verifies_without_timeout", "timestamp_verify", &format!("{bkey}|{t}"), &detg, r, |r| r.is_ok()), Some(Ok(())));
+            if base_ok {
+                for to in [60_000u64, u64::MAX] {
+                    let r = catch(|| p.verify(pk, msg, Some(to)));
+                    let d = jmerge(&det, json!({"timeout_ms": to, "delay": "none"}));
+                    rec(s, "ts_verifies_within_timeout", "timestamp_verify", &format!("{bkey}|{t}|{to}"), &d, r, |r| r.is_ok());
+                }
+            }
+            // other message / key / proof component, no timeout
+            for (name, m2) in thresh_other_msgs(rng, msg) {
+                let r = catch(|| p.verify(pk, &m2, None));
+                let d = jmerge(&det, json!({"perturbation": format!("message_{name}"), "verify_msg": msg_field(&m2)}));
+                rec(s, "ts_rejects_other_message", "timestamp_verify", &format!("{bkey}|{t}|{name}"), &d, r, |r| r.is_err());
+            }
+            {
+                let r = catch(|| p.verify(pk_other, msg, None));
+                let d = jmerge(&det, json!({"perturbation": "other_public_key", "other_sk": gen::hs(other)}));
+                rec(s, "ts_rejects_other_public_key", "timestamp_verify", &format!("{bkey}|{t}|{}", gen::hs(other)), &d, r, |r| r.is_err());
+                let g = ThreshSig::generator();
+                let mods: Vec<(&str, ThreshSig, ThreshSig)> = vec![("u_plus_G", u + g, v), ("v_plus_G", u, v + g), ("u_negated", -u, v), ("v_negated", u, -v), ("u_v_swapped", v, u)];
+                for (name, u2, v2) in mods {
+                    let p2 = ProofOfKnowledgeTimestamp::<C> { proof: thresh_pok_make(sc, u2, v2), timestamp: t };
+                    let r = catch(|| p2.verify(pk, msg, None));
+                    let d = jmerge(&det, json!({"perturbation": name}));
+                    rec(s, "ts_rejects_modified_component", "timestamp_verify", &format!("{bkey}|{t}|{name}"), &d, r, |r| r.is_err());
+                }
+                for sc2 in 0..3u8 {
+                    if sc2 != sc {
+                        let p2 = ProofOfKnowledgeTimestamp::<C> { proof: thresh_pok_make(sc2, u, v), timestamp: t };
+                        let r = catch(|| p2.verify(pk, msg, None));
+                        let d = jmerge(&det, json!({"perturbation": format!("relabelled_{}", gen::SCH[sc2 as usize])}));
+                        rec(s, "ts_rejects_relabelled_scheme", "timestamp_verify", &format!("{bkey}|{t}|{sc2}"), &d, r, |r| r.is_err());
+                    }
+                }
+            }
+            // altered timestamp, no timeout: an error, not a panic
+            let mut alt: Vec<u64> = vec![t.wrapping_add(1), t.wrapping_sub(1), 0, 1, u64::MAX, t.wrapping_add(1_000_000), t.wrapping_sub(1_000_000),
+                                         t.wrapping_add(1_000_000_000_000), 1u64 << 63, t ^ (1u64 << 40), t ^ (1u64 << (run % 64))];
+            if thorough {
+                for _ in 0..8 {
+                    alt.push(rng.next());
+                }
+                alt.push(u64::MAX - 1);
+                alt.push(t.wrapping_add(60_000));
+            }
+            alt.sort();
+            alt.dedup();
+            alt.retain(|&x| x != t);
+            for &t2 in &alt {
+                let p2 = ProofOfKnowledgeTimestamp::<C> { proof: p.proof, timestamp: t2 };
+                let r = catch(|| p2.verify(pk, msg, None));
+                let d = jmerge(&det, json!({"altered_timestamp": t2, "timeout_ms": null}));
+                rec(s, "ts_rejects_altered_timestamp", "timestamp_verify", &format!("{bkey}|{t}|{t2}"), &d, r, |r| r.is_err());
+            }
+            // any timestamp with a timeout: the call returns (and rejects an altered timestamp)
+            let timeouts: Vec<u64> = if thorough { vec![0, 1, 60_000, u64::MAX] } else { vec![[60_000u64, 0, u64::MAX][run % 3]] };
+            let with_to: Vec<u64> = if thorough {
+                alt.clone()
+            } else {
+                vec![t.wrapping_sub(1), 0, t.wrapping_sub(1_000_000), [t.wrapping_add(1_000_000), u64::MAX, 1u64 << 63, t.wrapping_add(60_000)][run % 4]]
+            };
+            for &t2 in &with_to {
+                for &to in &timeouts {
+                    let p2 = ProofOfKnowledgeTimestamp::<C> { proof: p.proof, timestamp: t2 };
+                    let r = catch(|| p2.verify(pk, msg, Some(to)));
+                    let d = jmerge(&det, json!({"altered_timestamp": t2, "timeout_ms": to, "timestamp_minus_generation_time": (t2 as i128 - t as i128).to_string()}));
+                    let key = format!("{bkey}|{t}|{t2}|{to}");
+                    match r {
+                        Err(()) => s.case("timestamp_verify_panicked", key, false, d),
+                        Ok(x) => s.case("ts_rejects_altered_timestamp_with_timeout", key, x.is_err(), d),
+                    }
+                }
+            }
+            batch.push(ThreshTsCase { p, pk, msg: msg.to_vec(), det, key: format!("{bkey}|{t}"), base_ok });
+        }
+
+        /// every single-component change of (y, msg, pk, u, v, scheme label) must be rejected
+        fn thresh_c10_perturb(s: &mut Search, rng: &mut Prng, key: &str, det: &serde_json::Value, proof: &ProofOfKnowledge<C>,
+                              pk: &PublicKey<C>, pk_other: &PublicKey<C>, m: &[u8], y: &ProofCommitmentChallenge<C>, tag: &str) {
+            use crate::search_thresh::{jmerge, msg_field, rec};
+            let (sc, u, v) = thresh_pok_parts(proof);
+            let (pk, y) = (*pk, *y);
+            let one = thresh_scalar(&RScalar::ONE);
+            let hd = rng.bytes(16);
+            let ys: Vec<(&str, ProofCommitmentChallenge<C>)> = vec![
+                ("y_plus_1", ProofCommitmentChallenge::<C>(y.0 + one)),
+                ("y_minus_1", ProofCommitmentChallenge::<C>(y.0 - one)),
+                ("y_negated", ProofCommitmentChallenge::<C>(-y.0)),
+                ("y_doubled", ProofCommitmentChallenge::<C>(y.0 + y.0)),
+                ("fresh_random", ProofCommitmentChallenge::<C>::new()),
+                ("fresh_from_hash", ProofCommitmentChallenge::<C>::from_hash(&hd)),
+            ];
+            for (name, y2) in ys {
+                if y2 == y {
+                    continue;
+                }
+                let r = catch(|| proof.verify(pk, m, y2));
+                let d = jmerge(det, json!({"perturbation": name, "verify_challenge": gen::hx(&bsc_be(&y2.0)), "base": tag}));
+                rec(s, "pok_rejects_other_challenge", "pok_verify", &format!("{key}|{name}"), &d, r, |r| r.is_err());
+            }
+            for (name, m2) in thresh_other_msgs(rng, m) {
+                let r = catch(|| proof.verify(pk, &m2, y));
+                let d = jmerge(det, json!({"perturbation": format!("message_{name}"), "verify_msg": msg_field(&m2), "base": tag}));
+                rec(s, "pok_rejects_other_message", "pok_verify", &format!("{key}|{name}"), &d, r, |r| r.is_err());
+            }
+            let gp = ThreshPk::generator();
+            let pks: Vec<(&str, PublicKey<C>)> = vec![
+                ("other_key", *pk_other),
+                ("pk_plus_G", PublicKey::<C>(pk.0 + gp)),
+                ("pk_negated", PublicKey::<C>(-pk.0)),
+                ("pk_doubled", PublicKey::<C>(pk.0 + pk.0)),
+                ("generator", PublicKey::<C>(gp)),
+            ];
+            for (name, pk2) in pks {
+                if pk2 == pk {
+                    continue;
+                }
+                let r = catch(|| proof.verify(pk2, m, y));
+                let d = jmerge(det, json!({"perturbation": name, "verify_pk": hexpt(&pk2.0), "base": tag}));
+                rec(s, "pok_rejects_other_public_key", "pok_verify", &format!("{key}|{name}"), &d, r, |r| r.is_err());
+            }
+            let g = ThreshSig::generator();
+            let mods: Vec<(&str, ThreshSig, ThreshSig)> = vec![
+                ("u_plus_G", u + g, v),
+                ("u_minus_G", u - g, v),
+                ("u_negated", -u, v),
+                ("u_doubled", u + u, v),
+                ("v_plus_G", u, v + g),
+                ("v_minus_G", u, v - g),
+                ("v_negated", u, -v),
+                ("v_doubled", u, v + v),
+                ("u_v_swapped", v, u),
+                ("u_replaced_by_v", v, v),
+                ("v_replaced_by_u", u, u),
+                ("both_doubled", u + u, v + v),
+            ];
+            for (name, u2, v2) in mods {
+                // The swap changes both components at once; for the degenerate key sk = 1 (pk = G) the
+                // swapped pair satisfies the verification equation identically (x - sk*x = 0), so no
+                // verifier could reject it: not an expectation of the property, skipped.
+                if name == "u_v_swapped" && pk.0 == gp {
+                    continue;
+                }
+                let p2 = thresh_pok_make(sc, u2, v2);
+                let r = catch(|| p2.verify(pk, m, y));
+                let d = jmerge(det, json!({"perturbation": name, "base": tag}));
+                rec(s, "pok_rejects_modified_component", "pok_verify", &format!("{key}|{name}"), &d, r, |r| r.is_err());
+            }
+            for sc2 in 0..3u8 {
+                if sc2 != sc {
+                    let p2 = thresh_pok_make(sc2, u, v);
+                    let r = catch(|| p2.verify(pk, m, y));
+                    let d = jmerge(det, json!({"perturbation": format!("relabelled_{}", gen::SCH[sc2 as usize]), "base": tag}));
+                    rec(s, "pok_rejects_relabelled_scheme", "pok_verify", &format!("{key}|{sc2}"), &d, r, |r| r.is_err());
+                }
+            }
+        }
+
+        /// finalize refuses a commitment and a signature of different schemes
+        fn thresh_c10_finalize_mismatch(s: &mut Search, rng: &mut Prng, k: &RScalar) {
+            use crate::search_thresh::rec;
+            let imp = thresh_imp();
+            let sk = sk_of(k);
+            for (mi, len) in [0usize, 40].iter().enumerate() {
+                let msg = gen::message(rng, *len);
+                let sigs: Vec<Signature<C>> = match (0..3u8).map(|sc| sk.sign(scheme_of(sc), &msg)).collect::<Result<Vec<_>, _>>() {
+                    Ok(v) => v,
+                    Err(_) => return,
+                };
+                for a in 0..3usize {
+                    for b in 0..3usize {
+                        if a == b {
+                            continue;
+                        }
+                        let y = ProofCommitmentChallenge::<C>(thresh_scalar(&rng.scalar()));
+                        let (sa, sb) = (sigs[a], sigs[b]);
+                        let det = json!({"impl": imp, "sk": gen::hs(k), "msg": gen::hx(&msg), "commitment_scheme": gen::SCH[a], "signature_scheme": gen::SCH[b],
+                                         "challenge": gen::hx(&bsc_be(&y.0))});
+                        let r = catch(|| {
+                            let (c, x) = ProofCommitment::<C>::generate(&msg, sa)?;
+                            Ok::<_, BlsError>(c.finalize(x, y, sb).is_err())
+                        });
+                        rec(s, "finalize_rejects_scheme_mismatch", "pok_finalize", &format!("{imp}|{}|{mi}|{a}|{b}", gen::hs(k)), &det, r, |r| matches!(r, Ok(true)));
+                    }
+                }
+            }
+        }
+
+        /// real delays: one sleep shared by all proofs of the batch
+        fn thresh_c10_after_sleep(s: &mut Search, batch: &[ThreshTsCase], thorough: bool) {
+            use crate::search_thresh::{jmerge, rec};
+            // (sleep before this stage in ms, timeouts that must have elapsed, timeouts that must not)
+            let stages: Vec<(u64, Vec<u64>, Vec<u64>)> = if thorough {
+                vec![(60, vec![0, 1, 10, 30], vec![60_000, 3_600_000]), (100, vec![0, 50, 100, 120], vec![60_000, u64::MAX])]
+            } else {
+                vec![(60, vec![0, 10], vec![60_000])]
+            };
+            let mut slept = 0u64;
+            for (ms, elapsed, within) in stages {
+                std::thread::sleep(std::time::Duration::from_millis(ms));
+                slept += ms;
+                for c in batch {
+                    let (p, pk, msg) = (c.p, c.pk, &c.msg);
+                    for &to in &elapsed {
+                        // at least `slept` ms have passed since generation and to < slept
+                        let r = catch(|| p.verify(pk, msg, Some(to)));
+                        let d = jmerge(&c.det, json!({"timeout_ms": to, "slept_ms_at_least": slept}));
+                        rec(s, "ts_rejected_after_timeout", "timestamp_verify", &format!("{}|{to}|{slept}", c.key), &d, r, |r| r.is_err());
+                    }
+                    if c.base_ok {
+                        for &to in &within {
+                            let r = catch(|| p.verify(pk, msg, Some(to)));
+                            let d = jmerge(&c.det, json!({"timeout_ms": to, "slept_ms_at_least": slept}));
+                            rec(s, "ts_verifies_within_timeout", "timestamp_verify", &format!("{}|{to}|{slept}", c.key), &d, r, |r| r.is_ok());
+                        }
+                        let r = catch(|| p.verify(pk, msg, None));
+                        let d = jmerge(&c.det, json!({"timeout_ms": null, "slept_ms_at_least": slept}));
+                        rec(s, "ts_verifies_without_timeout", "timestamp_verify", &format!("{}|none|{slept}", c.key), &d, r, |r| r.is_ok());
+                    }
+                }
+            }
+        }
+    };
+}
+
+macro_rules! search_thresh_c12 {
+    () => {
+        /// C12: threshold signcryption decryption: shares verify, and t of them decrypt
+        pub fn c12(s: &mut Search, rng: &mut Prng, thorough: bool) {
+            let edges = gen::edge_scalars();
+            let g = crate::search_thresh::grid(
+                thorough,
+                4,
+                6,
+                &[(3, 5), (5, 5), (2, 7), (20, 40), (255, 255)],
+                &[(2, 8), (8, 8), (5, 16), (16, 16), (64, 64), (2, 255), (128, 255), (254, 255), (100, 200)],
+            );
+            for (gi, &(t, n, exhaustive)) in g.iter().enumerate() {
+                let k = if gi % 3 == 0 { edges[(gi / 3) % edges.len()] } else { rng.scalar() };
+                // every scheme on the small grid; one rotating scheme on the large samples in the quick tier
+                for sc in 0..3u8 {
+                    if !exhaustive && !thorough && n > 16 && (gi as u8 + sc) % 3 != 0 {
+                        continue;
+                    }
+                    thresh_c12_one(s, rng, thorough, t, n, exhaustive, &k, sc);
+                }
+            }
+        }
+
+        fn thresh_c12_one(s: &mut Search, rng: &mut Prng, thorough: bool, t: usize, n: usize, exhaustive: bool, k: &RScalar, sc: u8) {
+            use crate::search_thresh::{jmerge, msg_field, rec};
+            let imp = thresh_imp();
+            let sk = sk_of(k);
+            let pk = sk.public_key();
+            let seed = crate::search_thresh::seed32(rng);
+            // below-threshold expectations need a message long enough that a wrong keystream cannot
+            // reproduce it by chance (an empty message is recovered by a wrong key with probability 1/256)
+            let len = *rng.pick(&[0usize, 1, 15, 16, 31, 32, 33, 100, 127, 128, 300]);
+            let msg = gen::message(rng, len);
+            let long_enough = msg.len() >= 16;
+            let scheme = scheme_of(sc);
+            let ct = match catch(|| pk.sign_crypt(scheme, &msg)) {
+                Ok(c) => c,
+                Err(()) => return, // C11's business
+            };
+            if !bool::from(ct.is_valid()) {
+                return; // C11's business
+            }
+            let ctb = Vec::<u8>::from(&ct);
+            let base = json!({"impl": imp, "t": t, "n": n, "sk": gen::hs(k), "split_seed": gen::hx(&seed),
+                              "split_rng": "ChaCha20Rng::from_seed(split_seed)", "scheme": gen::SCH[sc as usize],
+                              "msg": msg_field(&msg), "msg_len": msg.len(), "ciphertext_bare": gen::hx(&ctb)});
+            let bkey = format!("{imp}|{t}|{n}|{}|{}|{sc}|{}", gen::hs(k), gen::hx(&seed[..8]), gen::hx(&sha256(&ctb)[..8]));
+            let shares = match catch(|| sk.split_with_rng(t, n, crate::search_thresh::chacha(&seed))) {
+                Ok(Ok(v)) if v.len() == n => v,
+                _ => return, // C08's business
+            };
+            let ids: Vec<u8> = shares.iter().map(thresh_share_id).collect();
+            let mut pks: Vec<PublicKeyShare<C>> = vec![];
+            for sh in &shares {
+                match catch(|| sh.public_key()) {
+                    Ok(Ok(p)) => pks.push(p),
+                    _ => return,
+                }
+            }
+            // decryption shares
+            let mut ds: Vec<SignDecryptionShare<C>> = vec![];
+            for (i, sh) in shares.iter().enumerate() {
+                let r = catch(|| ct.create_decryption_share(sh));
+                let det = jmerge(&base, json!({"participant": ids[i]}));
+                match rec(s, "decryption_share_created", "create_decryption_share", &format!("{bkey}|{i}"), &det, r,
+                          |r| matches!(r, Ok(d) if blsful::vsss_rs::Share::identifier(&d.0) == ids[i])) {
+                    Some(Ok(d)) => ds.push(d),
+                    _ => return,
+                }
+            }
+            // other ciphertexts: fresh encryption of the same message, of another message, and relabelled copies
+            let ct_same = catch(|| pk.sign_crypt(scheme, &msg)).ok();
+            let mut m2 = msg.clone();
+            m2.push(1);
+            let ct_other = catch(|| pk.sign_crypt(scheme, &m2)).ok();
+
+            // which (share, key share) pairs
+            let mut pairs: Vec<(usize, usize)> = vec![];
+            if exhaustive {
+                for i in 0..n {
+                    for j in 0..n {
+                        pairs.push((i, j));
+                    }
+                }
+            } else {
+                for _ in 0..(if thorough { 8 } else { 4 }) {
+                    let i = rng.below(n as u64) as usize;
+                    let j = (i + 1 + rng.below(n as u64 - 1) as usize) % n;
+                    pairs.push((i, i));
+                    pairs.push((i, j));
+                }
+                pairs.push((n - 1, n - 1));
+                pairs.push((0, 0));
+                pairs.sort();
+                pairs.dedup();
+            }
+            for &(i, j) in &pairs {
+                let (d, pj) = (&ds[i], &pks[j]);
+                let r = catch(|| d.verify(pj, &ct));
+                let det = jmerge(&base, json!({"share_of": ids[i], "key_share_of": ids[j], "decryption_share": gen::hx(&Vec::<u8>::from(d)),
+                                               "got": match &r { Ok(x) => fmt_unit(x), Err(()) => "panic".into() }}));
+                let key = format!("{bkey}|{i}|{j}");
+                if i == j {
+                    rec(s, "decryption_share_verifies_own_key_share", "decryption_share_verify", &key, &det, r, |r| r.is_ok());
+                    for (name, c2) in [("fresh_encryption_same_message", &ct_same), ("fresh_encryption_other_message", &ct_other)] {
+                        if let Some(c2) = c2 {
+                            let r = catch(|| d.verify(pj, c2));
+                            let det = jmerge(&base, json!({"share_of": ids[i], "key_share_of": ids[j], "other_ciphertext": name,
+                                                           "other_ciphertext_bare": gen::hx(&Vec::<u8>::from(c2))}));
+                            rec(s, "decryption_share_rejected_for_other_ciphertext", "decryption_share_verify", &format!("{key}|{name}"), &det, r, |r| r.is_err());
+                        }
+                    }
+                    for sc2 in 0..3u8 {
+                        // same (u, v, w) under another scheme label: first and last participant only
+                        if sc2 != sc && (i == 0 || i == n - 1) {
+                            let mut c2 = ct.clone();
+                            c2.scheme = scheme_of(sc2);
+                            let r = catch(|| d.verify(pj, &c2));
+                            let det = jmerge(&base, json!({"share_of": ids[i], "key_share_of": ids[j], "other_ciphertext": "same_u_v_w_relabelled",
+                                                           "relabelled_scheme": gen::SCH[sc2 as usize]}));
+                            rec(s, "decryption_share_rejected_for_relabelled_ciphertext", "decryption_share_verify", &format!("{key}|relabel{sc2}"), &det, r, |r| r.is_err());
+                        }
+                    }
+                } else {
+                    rec(s, "decryption_share_rejected_by_other_key_share", "decryption_share_verify", &key, &det, r, |r| r.is_err());
+                }
+            }
+
+            // subsets of decryption shares
+            let subs = if exhaustive {
+                crate::search_thresh::subsets(rng, n, 2)
+            } else {
+                crate::search_thresh::sampled_subsets(rng, t, n, if thorough { 2 } else { 0 })
+            };
+            for sub in &subs {
+                let sids: Vec<u8> = sub.iter().map(|&i| ids[i]).collect();
+                let enough = sub.len() >= t;
+                let det = jmerge(&base, json!({"subset_ids_in_order": sids, "subset_size": sub.len(), "at_least_t": enough}));
+                let key = format!("{bkey}|{sids:?}");
+                let dd: Vec<SignDecryptionShare<C>> = sub.iter().map(|&i| ds[i].clone()).collect();
+                let r = catch(|| thresh_opt(ct.decrypt_with_shares(dd.as_slice())));
+                let r2 = catch(|| SignCryptDecryptionKey::<C>::from_shares(&dd).map(|k| thresh_opt(k.decrypt(&ct))));
+                if enough {
+                    rec(s, "threshold_decrypt_with_shares", "decrypt_with_shares", &key, &det, r, |r| r.as_deref() == Some(msg.as_slice()));
+                    rec(s, "threshold_decrypt_with_combined_key", "decryption_key_from_shares", &key, &det, r2,
+                        |r| matches!(r, Ok(Some(m)) if *m == msg));
+                } else if long_enough {
+                    rec(s, "below_threshold_never_decrypts", "decrypt_with_shares", &format!("{key}|shares"), &det, r, |r| r.as_deref() != Some(msg.as_slice()));
+                    rec(s, "below_threshold_never_decrypts", "decryption_key_from_shares", &format!("{key}|key"), &det, r2,
+                        |r| !matches!(r, Ok(Some(m)) if *m == msg));
+                }
+            }
+            // no share / one share
+            let few: Vec<(&str, Vec<SignDecryptionShare<C>>)> = vec![
+                ("no_share", vec![]),
+                ("one_share_first", vec![ds[0].clone()]),
+                ("one_share_last", vec![ds[n - 1].clone()]),
+            ];
+            for (name, dd) in &few {
+                let det = jmerge(&base, json!({"shares": name}));
+                let r = catch(|| thresh_opt(ct.decrypt_with_shares(dd.as_slice())));
+                rec(s, "too_few_shares_give_nothing", "decrypt_with_shares", &format!("{bkey}|{name}|shares"), &det, r, |r| r.is_none());
+                let r2 = catch(|| SignCryptDecryptionKey::<C>::from_shares(dd).map(|k| thresh_opt(k.decrypt(&ct))));
+                rec(s, "too_few_shares_give_nothing", "decryption_key_from_shares", &format!("{bkey}|{name}|key"), &det, r2,
+                    |r| !matches!(r, Ok(Some(_))));
+            }
+        }
+    };
+}
+
+macro_rules! search_thresh_c14 {
+    () => {
+        pub fn thresh_eg_proof(c1: ThreshPk, c2: ThreshPk, mp: BScalar, bp: BScalar, ch: BScalar) -> ElGamalProof<C> {
+            ElGamalProof::<C> { ciphertext: ElGamalCiphertext::<C> { c1, c2 }, message_proof: mp, blinder_proof: bp, challenge: ch }
+        }
+
+        pub fn thresh_eg_det(p: &ElGamalProof<C>) -> serde_json::Value {
+            json!({"c1": hexpt(&p.ciphertext.c1), "c2": hexpt(&p.ciphertext.c2), "message_proof": gen::hx(&bsc_be(&p.message_proof)),
+                   "blinder_proof": gen::hx(&bsc_be(&p.blinder_proof)), "challenge": gen::hx(&bsc_be(&p.challenge))})
+        }
+
+        /// C14: ElGamal: correct, additively homomorphic, proofs bind ciphertext and key
+        pub fn c14(s: &mut Search, rng: &mut Prng, thorough: bool) {
+            use crate::search_thresh::{jmerge, rec, ref_pk_mul};
+            let imp = thresh_imp();
+            let edges = gen::edge_scalars();
+            // the fixed message generator
+            let hgen = match catch(|| (<C as BlsElGamal>::message_generator(), <C as BlsElGamal>::message_generator())) {
+                Ok((a, b)) => {
+                    let ok = a == b && !bool::from(a.is_identity()) && a != ThreshPk::generator();
+                    s.case("message_generator_fixed", imp.to_string(), ok, json!({"impl": imp, "generator": hexpt(&a)}));
+                    a
+                }
+                Err(()) => {
+                    s.case("message_generator_panicked", imp.to_string(), false, json!({"impl": imp}));
+                    return;
+                }
+            };
+            let hgen_bytes = hgen.to_bytes().as_ref().to_vec();
+            // expected plaintext point for a plaintext scalar, computed with the reference backend
+            let expect = |m: &RScalar| -> Vec<u8> { ref_pk_mul(G1, &hgen_bytes, m).expect("generator decodes") };
+
+            let mut keys: Vec<RScalar> = vec![edges[0], edges[2], edges[6], edges[4], rng.scalar(), rng.scalar()];
+            let mut plains: Vec<RScalar> = vec![RScalar::ONE, -RScalar::ONE, RScalar::from(2u64), -RScalar::from(2u64), edges[5], rng.scalar(), rng.scalar()];
+            if thorough {
+                keys.extend_from_slice(&[edges[1], edges[3], edges[5]]);
+                plains.extend_from_slice(&[edges[4], edges[6]]);
+                for _ in 0..6 {
+                    keys.push(rng.scalar());
+                    plains.push(rng.scalar());
+                }
+            }
+
+            // ---- plain encryption / decryption, proofs and their perturbations
+            for (ki, k) in keys.iter().enumerate() {
+                let sk = sk_of(k);
+                let pk = sk.public_key();
+                let other = rng.scalar();
+                let sk_other = sk_of(&other);
+                let pk_other = sk_other.public_key();
+                for (mi, m) in plains.iter().enumerate() {
+                    let secret = sk_of(m);
+                    let want = expect(m);
+                    let base = json!({"impl": imp, "recipient_sk": gen::hs(k), "plaintext_scalar": gen::hs(m), "expected_point": gen::hx(&want)});
+                    let bkey = format!("{imp}|{}|{}", gen::hs(k), gen::hs(m));
+                    // same value computed by the library itself must agree with the reference
+                    let lib_want = (hgen * thresh_scalar(m)).to_bytes().as_ref().to_vec();
+                    if lib_want != want {
+                        continue; // a disagreement of the two backends on scalar multiplication is not C14's business
+                    }
+
+                    let r = catch(|| pk.encrypt_key_el_gamal(&secret));
+                    if let Some(Ok(ct)) = rec(s, "elgamal_encrypt_succeeds", "elgamal_encrypt", &bkey, &base, r, |r| r.is_ok()) {
+                        let det = jmerge(&base, json!({"c1": hexpt(&ct.c1), "c2": hexpt(&ct.c2)}));
+                        let key = format!("{bkey}|{}", hexpt(&ct.c1));
+                        let r = catch(|| ct.decrypt(&sk).to_bytes().as_ref().to_vec());
+                        rec(s, "elgamal_decrypt_correct", "elgamal_decrypt", &key, &det, r, |r| *r == want);
+                    }
+
+                    let r = catch(|| pk.encrypt_key_el_gamal_with_proof(&secret));
+                    let Some(Ok(p)) = rec(s, "elgamal_encrypt_with_proof_succeeds", "elgamal_encrypt_with_proof", &bkey, &base, r, |r| r.is_ok()) else { continue };
+                    let det = jmerge(&base, thresh_eg_det(&p));
+                    let key = format!("{bkey}|{}", hexpt(&p.ciphertext.c1));
+                    let r = catch(|| p.verify(pk));
+                    let detg = jmerge(&det, json!({"got": match &r { Ok(x) => fmt_unit(x), Err(()) => "panic".into() }}));
+                    rec(s, "elgamal_proof_verifies", "elgamal_proof_verify", &key, &detg, r, |r| r.is_ok());
+                    let r = catch(|| p.verify_and_decrypt(&sk).map(|x| x.to_bytes().as_ref().to_vec()));
+                    rec(s, "elgamal_verify_and_decrypt_correct", "elgamal_verify_and_decrypt", &key, &det, r, |r| matches!(r, Ok(x) if *x == want));
+                    let r = catch(|| p.ciphertext.decrypt(&sk).to_bytes().as_ref().to_vec());
+                    rec(s, "elgamal_decrypt_correct", "elgamal_decrypt", &format!("{key}|proof_ct"), &det, r, |r| *r == want);
+                    // non-matching secret key
+                    for (name, wrong, wrong_hex) in [("independent_key", &sk_other, gen::hs(&other)), ("recipient_plus_1", &sk_of(&(k + RScalar::ONE)), gen::hs(&(k + RScalar::ONE)))] {
+                        if wrong.0 == thresh_scalar(&RScalar::ZERO) {
+                            continue;
+                        }
+                        let r = catch(|| p.verify_and_decrypt(wrong).map(|_| ()));
+                        let d = jmerge(&det, json!({"wrong_sk": wrong_hex, "wrong_key": name}));
+                        rec(s, "elgamal_verify_and_decrypt_wrong_key_fails", "elgamal_verify_and_decrypt", &format!("{key}|{name}"), &d, r, |r| r.is_err());
+                    }
+                    // perturbations; only on a rotating part of the (key, plaintext) pairs in the quick tier
+                    if !thorough && (ki + mi) % 2 != 0 {
+                        continue;
+                    }
+                    // another honest proof for the same key and plaintext supplies "other honest values"
+                    let q = match catch(|| pk.encrypt_key_el_gamal_with_proof(&secret)) {
+                        Ok(Ok(q)) => q,
+                        _ => continue,
+                    };
+                    let (c1, c2, mp, bp, ch) = (p.ciphertext.c1, p.ciphertext.c2, p.message_proof, p.blinder_proof, p.challenge);
+                    let gp = ThreshPk::generator();
+                    let one = thresh_scalar(&RScalar::ONE);
+                    let muts: Vec<(&str, &str, ElGamalProof<C>)> = vec![
+                        ("c1", "plus_G", thresh_eg_proof(c1 + gp, c2, mp, bp, ch)),
+                        ("c1", "negated", thresh_eg_proof(-c1, c2, mp, bp, ch)),
+                        ("c1", "other_honest_value", thresh_eg_proof(q.ciphertext.c1, c2, mp, bp, ch)),
+                        ("c1", "replaced_by_c2", thresh_eg_proof(c2, c2, mp, bp, ch)),
+                        ("c2", "plus_G", thresh_eg_proof(c1, c2 + gp, mp, bp, ch)),
+                        ("c2", "plus_message_generator", thresh_eg_proof(c1, c2 + hgen, mp, bp, ch)),
+                        ("c2", "negated", thresh_eg_proof(c1, -c2, mp, bp, ch)),
+                        ("c2", "other_honest_value", thresh_eg_proof(c1, q.ciphertext.c2, mp, bp, ch)),
+                        ("message_proof", "plus_1", thresh_eg_proof(c1, c2, mp + one, bp, ch)),
+                        ("message_proof", "negated", thresh_eg_proof(c1, c2, -mp, bp, ch)),
+                        ("message_proof", "other_honest_value", thresh_eg_proof(c1, c2, q.message_proof, bp, ch)),
+                        ("message_proof", "replaced_by_blinder_proof", thresh_eg_proof(c1, c2, bp, bp, ch)),
+                        ("blinder_proof", "plus_1", thresh_eg_proof(c1, c2, mp, bp + one, ch)),
+                        ("blinder_proof", "negated", thresh_eg_proof(c1, c2, mp, -bp, ch)),
+                        ("blinder_proof", "other_honest_value", thresh_eg_proof(c1, c2, mp, q.blinder_proof, ch)),
+                        ("challenge", "plus_1", thresh_eg_proof(c1, c2, mp, bp, ch + one)),
+                        ("challenge", "negated", thresh_eg_proof(c1, c2, mp, bp, -ch)),
+                        ("challenge", "other_honest_value", thresh_eg_proof(c1, c2, mp, bp, q.challenge)),
+                        ("ciphertext", "other_honest_ciphertext", thresh_eg_proof(q.ciphertext.c1, q.ciphertext.c2, mp, bp, ch)),
+                    ];
+                    for (comp, how, p2) in &muts {
+                        let d = jmerge(&det, json!({"changed": comp, "perturbation": how, "perturbed": thresh_eg_det(p2)}));
+                        let r = catch(|| p2.verify(pk));
+                        rec(s, &format!("elgamal_proof_rejects_changed_{comp}"), "elgamal_proof_verify", &format!("{key}|{comp}|{how}|verify"), &d, r, |r| r.is_err());
+                        let r = catch(|| p2.verify_and_decrypt(&sk).map(|_| ()));
+                        rec(s, &format!("elgamal_proof_rejects_changed_{comp}"), "elgamal_verify_and_decrypt", &format!("{key}|{comp}|{how}|vd"), &d, r, |r| r.is_err());
+                    }
+                    let pks: Vec<(&str, PublicKey<C>)> = vec![
+                        ("other_key", pk_other),
+                        ("pk_plus_G", PublicKey::<C>(pk.0 + gp)),
+                        ("pk_negated", PublicKey::<C>(-pk.0)),
+                        ("message_generator", PublicKey::<C>(hgen)),
+                    ];
+                    for (how, pk2) in pks {
+                        if pk2 == pk {
+                            continue;
+                        }
+                        let d = jmerge(&det, json!({"changed": "public_key", "perturbation": how, "verify_pk": hexpt(&pk2.0)}));
+                        let r = catch(|| p.verify(pk2));
+                        rec(s, "elgamal_proof_rejects_changed_public_key", "elgamal_proof_verify", &format!("{key}|pk|{how}"), &d, r, |r| r.is_err());
+                    }
+                }
+            }
+
+            // ---- homomorphic sums of up to 16 ciphertexts
+            let mut ks: Vec<usize> = vec![2, 3, 5, 8, 16];
+            if thorough {
+                ks = (2..=16).collect();
+            } else {
+                ks.push(4 + rng.below(12) as usize);
+            }
+            for (ri, &kk) in ks.iter().enumerate() {
+                for variant in 0..2u8 {
+                    let k = if variant == 0 { rng.scalar() } else { *rng.pick(&edges) };
+                    let sk = sk_of(&k);
+                    let pk = sk.public_key();
+                    // plaintexts: random, or edge values arranged so that the sum wraps / cancels to zero
+                    let mut ms: Vec<RScalar> = (0..kk).map(|_| rng.scalar()).collect();
+                    if variant == 1 {
+                        ms[0] = -RScalar::ONE;
+                        ms[1] = RScalar::ONE;
+                        if kk == 2 || ri % 2 == 1 {
+                            // total is exactly zero: the plaintext point is the identity
+                            let partial = ms[..kk - 1].iter().fold(RScalar::ZERO, |a, b| a + b);
+                            if kk > 2 && partial != RScalar::ZERO {
+                                ms[kk - 1] = -partial;
+                            }
+                        }
+                    }
+                    let total = ms.iter().fold(RScalar::ZERO, |a, b| a + b);
+                    let want = if total == RScalar::ZERO { ThreshPk::identity().to_bytes().as_ref().to_vec() } else { expect(&total) };
+                    let mut cts: Vec<ElGamalCiphertext<C>> = vec![];
+                    for m in &ms {
+                        match catch(|| pk.encrypt_key_el_gamal(&sk_of(m))) {
+                            Ok(Ok(c)) => cts.push(c),
+                            _ => break,
+                        }
+                    }
+                    if cts.len() != kk {
+                        continue;
+                    }
+                    let det = json!({"impl": imp, "recipient_sk": gen::hs(&k), "k": kk, "plaintext_scalars": ms.iter().map(gen::hs).collect::<Vec<_>>(),
+                                     "sum_of_plaintexts": gen::hs(&total), "expected_point": gen::hx(&want),
+                                     "ciphertexts": cts.iter().map(|c| format!("{}:{}", hexpt(&c.c1), hexpt(&c.c2))).collect::<Vec<_>>()});
+                    let key = format!("{imp}|{}|{kk}|{}", gen::hs(&k), hexpt(&cts[0].c1));
+                    // four ways to add
+                    let r = catch(|| {
+                        let mut a = cts[0];
+                        for c in &cts[1..] {
+                            a = a + *c;
+                        }
+                        let mut b = cts[0];
+                        for c in &cts[1..] {
+                            b += c;
+                        }
+                        let mut c3 = cts[kk - 1];
+                        for c in cts[..kk - 1].iter().rev() {
+                            c3 = c + &c3;
+                        }
+                        let mut d = cts[0];
+                        for c in &cts[1..] {
+                            d += *c;
+                        }
+                        // component-wise sum done by hand
+                        let e = ElGamalCiphertext::<C> {
+                            c1: cts.iter().fold(ThreshPk::identity(), |x, c| x + c.c1),
+                            c2: cts.iter().fold(ThreshPk::identity(), |x, c| x + c.c2),
+                        };
+                        let same = a == b && a == c3 && a == d && a == e;
+                        (same, a.decrypt(&sk).to_bytes().as_ref().to_vec(), e.decrypt(&sk).to_bytes().as_ref().to_vec(), a)
+                    });
+                    let sum = rec(s, "elgamal_sum_decrypts_to_sum", "elgamal_sum", &key, &det, r, |(same, x, y, _)| *same && *x == want && *y == want);
+                    // ... and with a decryption key recombined from shares of the recipient key
+                    if let Some((_, _, _, sum_ct)) = sum {
+                        let (t, n) = [(2usize, 3usize), (3, 5), (4, 4)][ri % 3];
+                        let seed = crate::search_thresh::seed32(rng);
+                        let det = jmerge(&det, json!({"t": t, "n": n, "split_seed": gen::hx(&seed)}));
+                        let r = catch(|| {
+                            let shares = sk.split_with_rng(t, n, crate::search_thresh::chacha(&seed))?;
+                            let mut ds = vec![];
+                            for sh in shares.iter().rev().take(t) {
+                                ds.push(ElGamalDecryptionShare::<C>(<C as BlsSignatureCore>::public_key_share_with_generator(&sh.0, sum_ct.c1)?));
+                            }
+                            let dk = ElGamalDecryptionKey::<C>::from_shares(&ds)?;
+                            Ok::<_, BlsError>(dk.decrypt(&sum_ct).to_bytes().as_ref().to_vec())
+                        });
+                        rec(s, "elgamal_sum_threshold_decrypt_correct", "elgamal_threshold_decrypt", &key, &det, r, |r| matches!(r, Ok(x) if *x == want));
+                    }
+                }
+            }
+
+            // ---- decryption key recombined from t-of-n decryption shares
+            let g = crate::search_thresh::grid(thorough, 4, 6, &[(3, 5), (5, 5), (4, 7), (128, 255)], &[(2, 8), (8, 8), (16, 16), (2, 255), (255, 255), (100, 200)]);
+            for (gi, &(t, n, exhaustive)) in g.iter().enumerate() {
+                let k = if gi % 3 == 0 { edges[(gi / 3) % edges.len()] } else { rng.scalar() };
+                let m = plains[gi % plains.len()];
+                let sk = sk_of(&k);
+                let pk = sk.public_key();
+                let want = expect(&m);
+                let seed = crate::search_thresh::seed32(rng);
+                let ct = match catch(|| pk.encrypt_key_el_gamal(&sk_of(&m))) {
+                    Ok(Ok(c)) => c,
+                    _ => continue,
+                };
+                let base = json!({"impl": imp, "t": t, "n": n, "recipient_sk": gen::hs(&k), "plaintext_scalar": gen::hs(&m), "expected_point": gen::hx(&want),
+                                  "split_seed": gen::hx(&seed), "split_rng": "ChaCha20Rng::from_seed(split_seed)", "c1": hexpt(&ct.c1), "c2": hexpt(&ct.c2)});
+                let bkey = format!("{imp}|{t}|{n}|{}|{}|{}", gen::hs(&k), gen::hx(&seed[..8]), hexpt(&ct.c1));
+                let shares = match catch(|| sk.split_with_rng(t, n, crate::search_thresh::chacha(&seed))) {
+                    Ok(Ok(v)) if v.len() == n => v,
+                    _ => continue, // C08's business
+                };
+                let ids: Vec<u8> = shares.iter().map(thresh_share_id).collect();
+                let mut ds: Vec<ElGamalDecryptionShare<C>> = vec![];
+                for (i, sh) in shares.iter().enumerate() {
+                    let r = catch(|| <C as BlsSignatureCore>::public_key_share_with_generator(&sh.0, ct.c1));
+                    let det = jmerge(&base, json!({"participant": ids[i]}));
+                    match rec(s, "elgamal_decryption_share_created", "elgamal_decryption_share", &format!("{bkey}|{i}"), &det, r, |r| r.is_ok()) {
+                        Some(Ok(d)) => ds.push(ElGamalDecryptionShare::<C>(d)),
+                        _ => break,
+                    }
+                }
+                if ds.len() != n {
+                    continue;
+                }
+                let subs = if exhaustive {
+                    crate::search_thresh::subsets(rng, n, t)
+                } else {
+                    crate::search_thresh::sampled_subsets(rng, t, n, if thorough { 2 } else { 0 }).into_iter().filter(|v| v.len() >= t).collect()
+                };
+                for sub in &subs {
+                    let sids: Vec<u8> = sub.iter().map(|&i| ids[i]).collect();
+                    let det = jmerge(&base, json!({"subset_ids_in_order": sids, "subset_size": sub.len()}));
+                    let dd: Vec<ElGamalDecryptionShare<C>> = sub.iter().map(|&i| ds[i].clone()).collect();
+                    let r = catch(|| ElGamalDecryptionKey::<C>::from_shares(&dd).map(|dk| dk.decrypt(&ct).to_bytes().as_ref().to_vec()));
+                    rec(s, "elgamal_threshold_decrypt_correct", "elgamal_threshold_decrypt", &format!("{bkey}|{sids:?}"), &det, r, |r| matches!(r, Ok(x) if *x == want));
+                }
+            }
+        }
     };
 }
